@@ -27,7 +27,9 @@ mod c05;
 mod c06;
 mod c07;
 mod c08;
+mod c09;
 mod c10;
+mod c11;
 mod c15;
 mod c17;
 mod c18;
@@ -56,7 +58,9 @@ fn checks() -> Vec<Check> {
         Check { id: "C06", level: "exploration", run: c06::run, replay: c06::replay },
         Check { id: "C07", level: "model_checking", run: c07::run, replay: c07::replay },
         Check { id: "C08", level: "exploration", run: c08::run, replay: c08::replay },
+        Check { id: "C09", level: "exploration", run: c09::run, replay: c09::replay },
         Check { id: "C10", level: "fault_enumeration", run: c10::run, replay: c10::replay },
+        Check { id: "C11", level: "exploration", run: c11::run, replay: c11::replay },
         Check { id: "C15", level: "exploration", run: c15::run, replay: c15::replay },
         Check { id: "C17", level: "exploration", run: c17::run, replay: c17::replay },
         Check { id: "C18", level: "exploration", run: c18::run, replay: c18::replay },
@@ -66,6 +70,7 @@ fn checks() -> Vec<Check> {
 }
 
 fn main() {
+    proc::detach_tty();
     let args: Vec<String> = std::env::args().collect();
     if args.len() < 2 {
         eprintln!("usage: kv <ID>|selftest|list [--tier quick|thorough] [--replay PATH]");
